@@ -1036,6 +1036,9 @@ func (c *compiler) toData(typ Type, data *token) []instruction {
 			res = append(res, instruction{Code: codeNewSlice, A: reg(dt), B: reg(len(elems))})
 		case TypeStruct:
 			st := typ.value()
+			if data.Symbol == ";" && len(data.Tokens) > 0 {
+				panicf("struct literals need field names") // (the field order is not known here)
+			}
 			for i := 0; i < len(data.Tokens); i += 2 {
 				t := data.Tokens[i]
 				res = append(res, instruction{Code: codeGlobalRef, A: reg(c.Globals.Index(t.Text))})
